@@ -10,7 +10,7 @@ if "-j" in args:
     jobs = int(args[args.index("-j") + 1]); del args[args.index("-j"):args.index("-j") + 2]
 seeds = args or sorted(os.listdir(os.path.join(VERIF, "seeded")))
 seeds = [s for s in seeds if os.path.isdir(os.path.join(VERIF, "seeded", s))]
-EXTRA = {"C04": ["C05", "C03"], "C05": ["C04"], "C18": ["C10"], "C06": ["C10"], "C10": ["C06"], "C02": ["C01"], "C01": ["C02"], "C03": ["C02"], "C17": ["C02"], "C07": ["C02"], "C09": ["C02"], "C16": ["C02", "C07"], "C08": ["C02"]}
+EXTRA = {"C04": ["C05", "C03"], "C05": ["C04"], "C18": ["C10"], "C06": ["C10"], "C10": ["C06"], "C02": ["C01"], "C01": ["C02"], "C03": ["C02"], "C17": ["C02"], "C07": ["C02"], "C09": ["C02", "C10"], "C16": ["C02", "C07"], "C08": ["C02"]}
 
 
 def run(seed):
